@@ -340,13 +340,18 @@ def gen_spec(rng, allow_nat=True):
             unit, vals = "onoff", [rng.random() < 0.5 for _ in range(n_row)]
         elif kind == "datetime":
             unit, vals = "datetime", []
+            fine = rng.random() < 0.3
             for _ in range(n_row):
                 if allow_nat and rng.random() < 0.15:
                     vals.append(None)
                 else:
-                    vals.append(datetime.datetime(rng.randint(1900, 2200), rng.randint(1, 12), rng.randint(1, 28),
-                                                  rng.randint(0, 23), rng.randint(0, 59), rng.randint(0, 59),
-                                                  rng.choice([0, 0, 1, 999999, 123000, 500])))
+                    v = datetime.datetime(rng.randint(1900, 2200), rng.randint(1, 12), rng.randint(1, 28),
+                                          rng.randint(0, 23), rng.randint(0, 59), rng.randint(0, 59),
+                                          rng.choice([0, 0, 1, 999999, 123000, 500]))
+                    if fine:       # finer than a microsecond: the column is held as datetime64[ns]
+                        import pandas as pd
+                        v = pd.Timestamp(v) + pd.Timedelta(nanoseconds=rng.choice([1, 789, 700, 999, 0]))
+                    vals.append(v)
         elif kind == "int":
             unit = rng.choice(NUM_UNITS).strip(SPACES)
             vals = [rng.choice([0, 1, -1, 7, 10 ** 6, -2 ** 40, 2 ** 53 - 1, -(2 ** 53) + 1, 10 ** 15, 10 ** 16]) for _ in range(n_row)]
@@ -383,6 +388,8 @@ def build_table(rng, spec):
             data[nm] = np.array(vals, dtype="int64")
         elif kind == "datetime":
             res = rng.choice(["us", "us", "ns", "ms" if all(v is None or v.microsecond % 1000 == 0 for v in vals) else "us"])
+            if any(getattr(v, "nanosecond", 0) for v in vals):
+                res = "ns"
             data[nm] = pd.Series([pd.NaT if v is None else pd.Timestamp(v) for v in vals], dtype=f"datetime64[{res}]")
         else:
             data[nm] = np.array(vals, dtype="float64")
@@ -408,11 +415,40 @@ def spec_from_case(c):
     cols = []
     for nm, unit, kind, vals in c["columns"]:
         if kind == "datetime":
-            vals = [None if v is None else datetime.datetime.fromisoformat(v) for v in vals]
+            import pandas as pd
+            vals = [None if v is None else pd.Timestamp(v) for v in vals]
         elif kind == "num":
             vals = [float(v) for v in vals]
         cols.append((nm, unit, kind, vals))
     return {"name": c["name"], "dests": c["destinations"], "cols": cols, "transposed": c.get("transposed", False)}
+
+
+NS_SPELL = ["2020-01-02 03:04:05.123456789", "2020-01-02T03:04:05.1234567", "1999-12-31 23:59:59.999999999",
+            " 2020-01-02 03:04:05.000000001 ", "2031-07-08 09:10:11.12345678"]
+
+
+def inject_ns(rng, grid, info, native=False, p=0.35):
+    """with probability p per datetime column, one value cell gets a finer-than-microsecond timestamp (text, or a
+    pd.Timestamp for native grids): pandas then holds the whole column as datetime64[ns]"""
+    import pandas as pd
+    if not info["n_row"]:
+        return grid
+    for j, k in enumerate(info["kinds"]):
+        if k != "datetime" or rng.random() >= p:
+            continue
+        i = rng.randrange(info["n_row"])
+        cell = pd.Timestamp(rng.choice(NS_SPELL).strip()) if native and rng.random() < 0.5 else rng.choice(NS_SPELL)
+        # a datetime64[ns] column cannot hold dates outside 1677-09-21 .. 2262-04-11: pandas rejects the column
+        # (OutOfBoundsDatetime, an input error) — not a well-formed table; keep the column inside the ns range
+        for r in range(info["n_row"]):
+            ri, ci = (2 + j, 2 + r) if info["transposed"] else (4 + r, j)
+            if ci < len(grid[ri]) and isinstance(grid[ri][ci], str) and grid[ri][ci].strip()[:4] in ("1677", "2262"):
+                grid[ri][ci] = "2020-01-02"
+        if info["transposed"]:
+            grid[2 + j][2 + i] = cell
+        else:
+            grid[4 + i][j] = cell
+    return grid
 
 
 def zoo():
@@ -452,7 +488,7 @@ def run(tier, seed, model_ok, translator, search=False):
     out = Outcome()
     out.rule = ("(a) to_json_serializable on a zoo of Python / numpy / pandas objects (every dispatch branch, fallbacks, "
                 "failures); (b) well-formed tables of all column kinds (NaN, +-inf, integral and fractional numbers, int64, "
-                "microsecond datetimes, NaT, zero rows / columns, unicode and JSON-hostile text, names and destinations) "
+                "microsecond and nanosecond datetimes, NaT, zero rows / columns, unicode and JSON-hostile text, names and destinations) "
                 "-> table_to_json_data -> json.dumps(allow_nan=False) -> json.loads -> json_data_to_table; (c) reader-produced "
                 "JsonData (make_table_json_data and parse_blocks(to='jsondata')) of well-formed grids, text and native cells, "
                 "both orientations; (d) malformed JsonData into json_data_to_table (model vs code on the exception class). "
@@ -498,6 +534,7 @@ def run(tier, seed, model_ok, translator, search=False):
     for i in range(n_c):
         native = rng.random() < 0.4
         grid, info = c02.wf_grid(rng, native)
+        grid = inject_ns(rng, [list(r) for r in grid], info, native)
         case = {"seed": seed, "stream": "c", "index": i, "cells": grid_to_json(grid)}
         run_grid_case(out, grid, info, case, model, via_blocks=(i % 2 == 1))
 
